@@ -56,6 +56,7 @@ ModelBytes(m) == IF m \in DOMAIN ExtTable THEN ExtTable[m]
 Good(plat, fmt) ==
     [plat |-> plat, args |-> "ok", root |-> "right", certfile |-> "ok", file |-> BaseFile,
      btc |-> Btc, mh |-> BaseHash,
+     targets |-> IF plat = "ledger" THEN <<"ui", "signer">> ELSE <<"quote">>, brk |-> <<>>,
      ui |-> IF plat = "ledger"
             THEN [exists |-> "t", chain |-> "intact", hdr |-> "ok", sepc |-> "dot", key |-> 1,
                   len |-> "exact", at |-> "none", m |-> "na", n |-> 0, tail |-> "any"]
@@ -123,6 +124,34 @@ DevFile  == /\ nfile < MaxFileMut /\ pc = "env" /\ ndev < MaxDev
             /\ UNCHANGED <<pc, outcome, site, printed, sys>>
 DevHash  == inp.mh = BaseHash /\ \E h \in HashVariants(inp.file) \ {BaseHash} :
                 Dev([inp EXCEPT !.mh = h])
+\* the `targets` list of the attestation file: a required target is not listed ...
+Sync(i) == IF i.plat = "ledger"
+           THEN [i EXCEPT !.ui.exists = Listed(i, "ui"), !.pow.exists = Listed(i, "signer"),
+                          !.ui.chain = ChainOf(i, "ui"), !.pow.chain = ChainOf(i, "signer")]
+           ELSE [i EXCEPT !.pow.exists = Listed(i, "quote"), !.pow.chain = ChainOf(i, "quote")]
+Unlist(i, n) == Sync([i EXCEPT !.targets = SelectSeq(i.targets, LAMBDA x : x # n)])
+\* ... or the list is not the documented one: other order, ancestors listed before / between / after
+\* the required targets, duplicates
+DocTargets(plat) == IF plat = "ledger" THEN <<"ui", "signer">> ELSE <<"quote">>
+TargetLists(plat) ==
+    IF plat = "ledger"
+    THEN {<<"signer", "ui">>}
+         \cup UNION {{<<a, "ui", "signer">>, <<"ui", "signer", a>>, <<"ui", a, "signer">>} :
+                        a \in {"device", "attestation"}}
+         \cup {<<"device", "attestation", "ui", "signer">>, <<"attestation", "device", "ui", "signer">>,
+               <<"ui", "signer", "device", "attestation">>}
+         \cup {<<"ui", "ui", "signer">>, <<"ui", "signer", "signer">>, <<"ui", "signer", "ui">>,
+               <<"device", "device", "ui", "signer">>}
+    ELSE UNION {{<<a, "quote">>, <<"quote", a>>} : a \in {"ca", "qe", "att"}}
+         \cup {<<"ca", "qe", "att", "quote">>, <<"att", "qe", "ca", "quote">>, <<"quote", "ca", "qe", "att">>}
+         \cup {<<"quote", "quote">>, <<"ca", "ca", "quote">>, <<"ca", "quote", "quote">>}
+DevTargets == /\ inp.targets = DocTargets(inp.plat)
+              /\ \E l \in TargetLists(inp.plat) : Dev(Sync([inp EXCEPT !.targets = l]))
+\* one more element does not verify under its certifier
+ElemOrder == IF IsL THEN LedgerOrder ELSE SgxOrder
+DevBrk   == \E e \in Range(ElemOrder) \ Range(inp.brk) :
+                Dev(Sync([inp EXCEPT !.brk = SelectSeq(ElemOrder, LAMBDA x : x = e \/ x \in Range(inp.brk))]))
+
 \* the length of a message deviates: n bytes cut at the end, or a member put after / before it
 LenDevs(t, cuts) ==
     {[t EXCEPT !.len = "short", !.at = "cut", !.n = c] : c \in cuts}
@@ -131,16 +160,14 @@ LenDevs(t, cuts) ==
 Plain(t) == t.len = "exact" /\ t.tail = "any"
 LegFmt(h) == h \in {"legacy", "sepleg"}
 DevUi    == /\ IsL
-            /\ \/ inp.ui.exists = "t" /\ Dev([inp EXCEPT !.ui.exists = "f"])
-               \/ inp.ui.chain = "intact" /\ Dev([inp EXCEPT !.ui.chain = "broken"])
+            /\ \/ inp.ui.exists = "t" /\ Dev(Unlist(inp, "ui"))
                \/ inp.ui.hdr = "ok" /\ Dev([inp EXCEPT !.ui.hdr = "foreign", !.ui.sepc = "na"])
                \/ inp.ui.hdr = "ok" /\ Sep /\ \E c \in SepMembers :
                       Dev([inp EXCEPT !.ui.hdr = "sep", !.ui.sepc = c])
                \/ inp.ui.key = 1 /\ \E k \in {2, Stranger} : Dev([inp EXCEPT !.ui.key = k])
                \/ Plain(inp.ui) /\ \E t \in LenDevs(inp.ui, {1, 3, 99}) : Dev([inp EXCEPT !.ui = t])
                \/ Plain(inp.ui) /\ \E m \in TailMembers : Dev([inp EXCEPT !.ui.tail = m])
-DevPow   == \/ inp.pow.exists = "t" /\ Dev([inp EXCEPT !.pow.exists = "f"])
-            \/ inp.pow.chain = "intact" /\ Dev([inp EXCEPT !.pow.chain = "broken"])
+DevPow   == \/ inp.pow.exists = "t" /\ Dev(Unlist(inp, IF IsL THEN "signer" ELSE "quote"))
             \/ inp.pow.hdr \in {"current", "legacy"} /\ (IsL \/ inp.pow.hdr = "current") /\
                   Dev([inp EXCEPT !.pow.hdr = "foreign", !.pow.sepc = "na"])
             \/ inp.pow.hdr = "current" /\ ~IsL /\ inp.pow.n <= 32 /\ inp.pow.tail \in TailMembers1 \cup {"any"} /\
@@ -272,7 +299,9 @@ S_RootSelf   == Chk("s4", inp.root = "malformed2", "RootSelf", "s5")
 S_Keys       == pc = "s5" /\ IF inp.file.kind # "ok" \/ inp.file.ents = <<>> THEN Err("Pubkeys")
                              ELSE GoSys("s6", [sys EXCEPT !.pkhash = FileHash(inp.file)])
 S_LoadCert   == Chk("s6", inp.certfile # "ok", "LoadCert", "s7")
-S_Validate   == pc = "s7" /\ GoSys("s8", [sys EXCEPT !.pow = Verdict(inp.pow)])
+\* validate_and_get_values asks every VALID target for its value; only a quote has one
+S_Validate   == pc = "s7" /\ IF SgxExtraTargetOpen(inp) THEN Err("TargetValue")
+                             ELSE GoSys("s8", [sys EXCEPT !.pow = Verdict(inp.pow)])
 S_NoQuote    == Chk("s8", sys.pow = "absent", "NoQuote", "s9")
 S_QInvalid   == Chk("s9", sys.pow = "invalid", "QuoteInvalid", "s10")
 S_Header     == Chk("s10", ~MatchPow(S.pow), "PowHeader", "s11")
@@ -284,7 +313,7 @@ S_Return     == /\ pc = "s13" /\ pc' = "done" /\ outcome' = "return" /\ site' = 
                                              !.mrsigner = PySlice(S.quote, 176, 208)], S.pow)
                 /\ UNCHANGED <<inp, ndev, nfile, sys>>
 
-EnvNext == DevArgs \/ DevRoot \/ DevCert \/ DevFile \/ DevHash \/ DevUi \/ DevPow \/ Start
+EnvNext == DevArgs \/ DevRoot \/ DevCert \/ DevFile \/ DevHash \/ DevUi \/ DevPow \/ DevTargets \/ DevBrk \/ Start
 SysNext == \/ L_NoCert \/ L_NoPub \/ L_RootHex \/ L_RootParse \/ L_LoadKeys \/ L_HashKeys \/ L_BtcKey
            \/ L_LoadCert \/ L_Validate \/ L_NoUi \/ L_UiInvalid \/ L_UiHeader \/ L_UiLength \/ L_UiKey \/ L_UiPrint
            \/ L_NoSigner \/ L_SgInvalid \/ L_SgHeader \/ L_SgLength \/ L_SgHash \/ L_Return
